@@ -219,12 +219,10 @@ impl DebugInformation {
             ecx.location().global_pc.into(),
             EhFrame::cie_from_offset,
         )?;
-        self.evaluate_cfa(
-            debugee,
-            &DwarfRegisterMap::from(RegisterMap::current(ecx.pid_on_focus())?),
-            row,
-            ecx,
-        )
+        // the row belongs to the frame in focus: so must the registers it is applied to
+        let mut registers = DwarfRegisterMap::from(RegisterMap::current(ecx.pid_on_focus())?);
+        debugee.restore_registers_at_frame(ecx.pid_on_focus(), &mut registers, ecx.frame_num())?;
+        self.evaluate_cfa(debugee, &registers, row, ecx)
     }
 
     pub fn debug_addr(&self) -> &DebugAddr<EndianArcSlice> {
